@@ -25,6 +25,18 @@ REPO = "/repo"
 ALL = ["C%02d" % i for i in range(1, 21)]
 
 
+RELATED = {
+    "jsonrpclib/SimpleJSONRPCServer.py": ["C01", "C02", "C03", "C04", "C05", "C07", "C08", "C12", "C13", "C17", "C20"],
+    "jsonrpclib/jsonrpc.py": ["C01", "C06", "C07", "C08", "C14", "C17", "C18", "C19", "C20"],
+    "jsonrpclib/jsonclass.py": ["C01", "C02", "C07", "C08", "C14", "C15", "C20"],
+    "jsonrpclib/threadpool.py": ["C04", "C09", "C10", "C11", "C12", "C16"],
+    "jsonrpclib/config.py": ["C05", "C08", "C13", "C20"],
+    "jsonrpclib/utils.py": ["C01", "C07", "C14", "C15", "C17"],
+    "jsonrpclib/jsonlib.py": ["C01", "C02", "C14", "C17"],
+    "jsonrpclib/history.py": ["C01"],
+}
+
+
 def run_check(prop, copy, tier, seed=0):
     env = dict(os.environ, VERIF_REPO=copy, VERIF_SEED=str(seed))
     t0 = time.time()
@@ -42,6 +54,7 @@ def main():
     ap.add_argument("--tier", default="quick")
     ap.add_argument("--tests", action="store_true")
     ap.add_argument("--all-checks", action="store_true")
+    ap.add_argument("--related", action="store_true")
     ap.add_argument("--seeds", type=int, default=1)
     ap.add_argument("--dir", default="seeded")
     ap.add_argument("--results", default=None)
@@ -94,6 +107,11 @@ def main():
                                     capture_output=True, text=True, timeout=600, cwd=scratch)
                 entry["demo_exit_with_change"] = dm.returncode
             checks = ALL if args.all_checks else [prop]
+            if args.related:
+                # the checks of every property anchored in a file the change touches
+                touched = set(l[6:] for l in open(os.path.join(d, "patch.diff")).read().splitlines()
+                              if l.startswith("+++ b/"))
+                checks = sorted(set([prop] + [c for f in touched for c in RELATED.get(f, [])]))
             entry["checks"] = {}
             for c in checks:
                 for seed in range(args.seeds):
